@@ -527,6 +527,27 @@ theorem poolStep_inv (c : Cfg) (all : List Int) (p : PSt) (ev : PEvent) (h : PIn
         have := (h.cancelled hpc').2.2
         rw [hsf] at this; cases this
 
+  | recvOther ce =>
+    let acts := onOtherResult (fun _ => ce)
+    have hfr := frame_acts c acts p.base
+    refine ⟨acts_inv c all acts p.base h.inv, ?_, ?_, ?_, ?_⟩
+    · show p.aw.awaited + (p.pending.length : Int) + ((acts.foldl (applyAct c) p.base).running.length : Int) =
+        ((acts.foldl (applyAct c) p.base).started : Int)
+      rw [hfr.running, hfr.started]
+      exact h.count
+    · intro hsf
+      obtain ⟨hd, hst⟩ := h.startFin hsf
+      exact ⟨hfr.phase.trans hd, by
+        show p.aw.started = ((acts.foldl (applyAct c) p.base).started : Int)
+        rw [hfr.started]; exact hst⟩
+    · intro y hy hk
+      show (acts.foldl (applyAct c) p.base).ammoOut = true
+      rw [hfr.ammoOut]
+      exact h.pendAmmo y hy hk
+    · intro hpc
+      obtain ⟨h1, h2, h3⟩ := h.cancelled hpc
+      exact ⟨by show (acts.foldl (applyAct c) p.base).running = []; rw [hfr.running]; exact h1, h2, h3⟩
+
 theorem poolRun_inv (c : Cfg) (all : List Int) (p : PSt) (evs : List PEvent) (h : PInv c all p) :
     PInv c all (poolRun c p evs) := by
   induction evs generalizing p with
@@ -609,6 +630,11 @@ theorem poolStep_refines (c : Cfg) (all : List Int) (p : PSt) (ev : PEvent) (h :
       rw [if_neg hg]
       simp only [checkAll]
       split <;> rfl
+
+  | recvOther ce =>
+    refine ⟨(onOtherResult (fun _ => ce)).map evOfAct, ?_⟩
+    rw [← acts_eq_run]
+    rfl
 
 /-- the pool layer refines the abstract system: what it does to the abstract state is a run of abstract events -/
 theorem poolRun_refines (c : Cfg) (all : List Int) (p : PSt) (pevs : List PEvent) (h : PInv c all p) :
